@@ -69,15 +69,19 @@ def jobs(thorough):
     # instances with >= 2 workers cost ~10 min and ~8 GB each (43M clauses): thorough tier only
     insts = [(1, 1), (2, 1), (3, 1)] if not thorough else [(1, 1), (2, 1), (3, 1), (1, 2), (2, 2), (2, 3), (3, 2)]
     js = []; fns = None
-    for nF, nt in insts:
+    # multi-worker instances in the quick tier: protocol obligations only (the named assertions of the contracts and the
+    # unwinding assertions, ~1 min each); their pointer/overflow checks are left to the thorough tier
+    proto = [] if thorough else [(1, 2), (2, 3)]
+    for nF, nt in insts + proto:
         tu, fns = coordinator_tu(nF, nt)
-        js.append(vlib.Job("C12-coordinator-nF%d-threads%d" % (nF, nt), tu, "h_coordinator", loop_contracts=False,
+        po = (nF, nt) in proto
+        js.append(vlib.Job("C12-coordinator-nF%d-threads%d%s" % (nF, nt, "-protocol" if po else ""), tu, "h_coordinator", loop_contracts=False, only=(r"\.assertion\.\d+$" if po else None),
                            cbmc_flags=["--unwind", str(max(nF + 3, nt + 3)), "--object-bits", "12", "--no-malloc-may-fail"], unwind_by_line=loop_bound(nF, nt),
                            cc_flags=["-I%s/include" % vlib.REPO, "-I%s/src/fitter" % vlib.REPO, "-I/usr/include/suitesparse"],
                            expect_fail=[r"^h_coordinator\.assertion\.\d+$.*", r"canary"], must_have=[r"pthread_cond_wait\.assertion", r"pthread_join\.assertion"],
                            timeout=3600, backend="cbmc-sat thread-modular (rely/guarantee stubs, unwinding)",
                            bounded="instance nF=%d, n_threads=%d; x, x_F, worker results and every rely choice symbolic; loops unwound with unwinding assertions" % (nF, nt),
-                           note="walk_descents extracted verbatim; pthread/cholmod/qsort/clock/get_nthreads/calc_residual replaced by contracts (stubs/c12_*.h)"))
+                           note="walk_descents extracted verbatim; pthread/cholmod/qsort/clock/get_nthreads/calc_residual replaced by contracts (stubs/c12_*.h)" + ("; PROTOCOL OBLIGATIONS ONLY (named assertions + unwinding assertions)" if po else "")))
     # worker side
     for nF, rounds in ([(1, 2), (2, 2)] if not thorough else [(1, 3), (2, 3), (3, 2)]):
         tu, ev = worker_tu(nF, rounds)
